@@ -36,6 +36,30 @@ func seedEnv(d *dtEnum, fd *ast.FuncDecl) *dtPath {
 	return p
 }
 
+// enumerateFuncP is enumerateFunc with calls of the package's single-return functions printed as the
+// expression they return (getters, forwarding methods, small predicates), so that a rule sees the same
+// canonical form whether the code calls the helper or spells the expression out.
+func enumerateFuncP(p *packages.Package, fd *ast.FuncDecl) ([]*dtPath, *dtEnum) {
+	d := newDTP(p, fd)
+	d.paths = nil
+	start := seedEnv(d, fd)
+	d.stmts(start, fd.Body.List, func(p *dtPath) { d.finish(p, "end") })
+	return d.paths, d
+}
+
+// newDTP: decision-table engine with expression inlining for the package (the function under
+// analysis itself is not inlined into its own body).
+func newDTP(p *packages.Package, self *ast.FuncDecl) *dtEnum {
+	d := newDT(p.TypesInfo)
+	d.exprInline = map[*types.Func]*ast.FuncDecl{}
+	for fn, fd := range pkgSingleReturn(p) {
+		if fd != self {
+			d.exprInline[fn] = fd
+		}
+	}
+	return d
+}
+
 func enumerateFunc(info *types.Info, fd *ast.FuncDecl) ([]*dtPath, *dtEnum) {
 	d := newDT(info)
 	d.paths = nil
@@ -384,15 +408,14 @@ func ruleR073(c *Ctx, r *Repo) {
 		return
 	}
 	c.Func(funcKey(cmdp, run))
-	outer := rangeOverC(cmdp, run, ".ParsePackages<(internal.Parser).ParsePackages>(")
-	var inner *ast.RangeStmt
-	if outer != nil {
-		ast.Inspect(outer.Body, func(n ast.Node) bool {
-			if rs, ok := n.(*ast.RangeStmt); ok && strings.HasSuffix(types.ExprString(rs.X), ".Configs") && inner == nil {
-				inner = rs
-			}
-			return true
-		})
+	// the loop over the parsed interfaces that holds the loop over the interface's Configs
+	// (range or index form; there may be other loops over the parsed interfaces)
+	var outer *ast.RangeStmt
+	var inner ast.Stmt
+	var innerBody *ast.BlockStmt
+	if m := newRunModel(r); m != nil && m.ifaceLoop != nil {
+		outer = m.ifaceLoop
+		inner, innerBody = cfgLoopIn(info, outer.Body)
 	}
 	if outer == nil || inner == nil {
 		c.Fail("R07.3", "Run|loops", r.Pos(run.Pos()), "cannot find the loop over parsed interfaces and, inside it, the loop over the interface's Configs")
@@ -455,7 +478,7 @@ func ruleR073(c *Ctx, r *Repo) {
 	// inner loop body: exactly one Append or an error return
 	d2 := newDT(info)
 	d2.paths = nil
-	d2.stmts(&dtPath{env: map[types.Object]string{}}, inner.Body.List, func(p *dtPath) { d2.finish(p, "end") })
+	d2.stmts(&dtPath{env: map[types.Object]string{}}, innerBody.List, func(p *dtPath) { d2.finish(p, "end") })
 	for _, p := range d2.paths {
 		nApp := hasStep(p, "InterfaceCollection).Append>(")
 		switch {
@@ -549,12 +572,14 @@ func ruleR075(c *Ctx, r *Repo, rule string) {
 		// every loaded package without Go files is dropped: in the loop over the loaded packages no path
 		// consistent with len(GoFiles) == 0 appends the package's path
 		var loops []*ast.RangeStmt
-		ast.Inspect(fd.Body, func(n ast.Node) bool {
-			if rs, ok := n.(*ast.RangeStmt); ok && typeIs(info.TypeOf(rs.X), "[]*golang.org/x/tools/go/packages.Package") {
-				loops = append(loops, rs)
-			}
-			return true
-		})
+		for _, g := range withCallees(cp, fd) { // the filter may live in a function subPackages calls
+			ast.Inspect(g.Body, func(n ast.Node) bool {
+				if rs, ok := n.(*ast.RangeStmt); ok && typeIs(info.TypeOf(rs.X), "[]*golang.org/x/tools/go/packages.Package") {
+					loops = append(loops, rs)
+				}
+				return true
+			})
+		}
 		okDrop := len(loops) == 1
 		why := "subPackages no longer drops packages that contain no Go files"
 		if okDrop {
@@ -775,9 +800,29 @@ func checkRecursiveOrder(c *Ctx, r *Repo, cp *packages.Package, fd *ast.FuncDecl
 		})
 		return found
 	}
-	// the expansion loop: the range in Initialize whose body reaches subPackages; its operand is the list
+	// the expansion loop: the range, in Initialize or in a function of the package it calls, whose body
+	// reaches subPackages; its operand is the list
 	var list types.Object
 	var loopPos, sortPos token.Pos
+	init := fd
+	for _, g := range withCallees(cp, init) {
+		if g == sub {
+			continue
+		}
+		found := false
+		ast.Inspect(g.Body, func(n ast.Node) bool {
+			if rs, ok := n.(*ast.RangeStmt); ok && reachesSub(rs.Body) {
+				if _, ok := ast.Unparen(rs.X).(*ast.Ident); ok {
+					found = true
+				}
+			}
+			return !found
+		})
+		if found {
+			fd = g
+			break
+		}
+	}
 	ast.Inspect(fd.Body, func(n ast.Node) bool {
 		if rs, ok := n.(*ast.RangeStmt); ok && !loopPos.IsValid() && reachesSub(rs.Body) {
 			if id, ok := ast.Unparen(rs.X).(*ast.Ident); ok {
